@@ -104,6 +104,25 @@ fn main() {
             }
         }
     }
+    if which == "all" || which == "C05" {
+        use coap_lite::{ContentFormat, Header, MessageClass};
+        for b in 0..=255u8 {
+            let class = MessageClass::from(b);
+            if u8::from(class) != b { found("code-byte-identity", format!("byte {:#04x} -> {:?} -> {:#04x}", b, class, u8::from(class))); }
+            let text = class.to_string();
+            let want = format!("{}.{:02}", b >> 5, b & 0x1F);
+            if text != want { found("dotted-text", format!("byte {:#04x} prints {:?}, expected {:?}", b, text, want)); }
+            let mut h = Header::new();
+            match catch_unwind(AssertUnwindSafe(|| { h.set_code(&want); (h.code, h.get_code()) })) {
+                Err(_) => found("set_code-panic", format!("{:?}", want)),
+                Ok((c, back)) => { if c != class || back != want { found("dotted-text-roundtrip", format!("{:?}: stored {:?}, prints {:?}", want, c, back)); } }
+            }
+        }
+        for n in 0..=65535u16 {
+            if u16::from(CoapOption::from(n)) != n { found("option-number-identity", format!("{}", n)); }
+            if let Ok(cf) = ContentFormat::try_from(n as usize) { if usize::from(cf) != n as usize { found("content-format-identity", format!("{}", n)); } }
+        }
+    }
     if which == "all" || which == "C19" {
         for s in strings(&["/", "a", "b\u{e9}"], 5) { for prior in [None, Some(""), Some("/"), Some("a"), Some("/a"), Some("a/"), Some("//")] {
             let mut req: CoapRequest<&'static str> = CoapRequest::new();
